@@ -100,9 +100,9 @@ def main() -> None:
         "setup_cmd": "./check setup",
         "hooks": {
             "guard": "JSONPATH_RFC9535_VERIF",
-            "enable": "no hooks are needed: every observable is reached through the public API and the patchable `random` name; the guard name is reserved",
+            "enable": "no build step: the hook in jsonpath_rfc9535/lex.py is active only when the environment variable JSONPATH_RFC9535_VERIF=1 is set at import time AND a harness has installed lex._verif_sink; only ./check EXTRA (the lexer trace validation, coverage beyond the listed properties) uses it - no check of a listed property reads hook output, so removing the hook cannot silence one",
             "baseline_off_cmd": "cd /repo && /venv/bin/python -m pytest -ra -q -p no:cacheprovider --timeout=900 --continue-on-collection-errors",
-            "source_commits": [],
+            "source_commits": ["2be371d"],
             "add_only": True,
         },
         "engines": [
@@ -110,7 +110,7 @@ def main() -> None:
              "kind_free_text": "TLC 1.8 explicit-state model checker on /verif/spec/*.tla (MC: internal theorems; GEN: exported states replayed into the code; TRACE: ndjson records of real executions validated step by step)"},
         ],
         "checks": checks,
-        "notes": "One TLA+ specification (/verif/spec) used in three TLC modes: MC, GEN (spec->code), TRACE (code->spec). See DESIGN.md.",
+        "notes": "One TLA+ specification (/verif/spec) used in three TLC modes: MC, GEN (spec->code), TRACE (code->spec). See DESIGN.md. `./check EXTRA` (not a listed property) holds coverage beyond the list: TokenStream.tla replayed into tokens.TokenStream, the repository's own test suite trace-validated at the API boundary, and Lexer.tla bound to Lexer.run step by step through the env-guarded hook. `./check selftest` holds the RFC anchors, the corrupted-trace self-test and (thorough) the 80 seeded changes.",
         "not_applicable": na,
     }
     with open(os.path.join(VERIF, "MANIFEST.json"), "w") as fh:
